@@ -38,7 +38,7 @@ META = {
         "CPython's GIL makes deque.append/popleft and Lock.acquire atomic: scheduling points are line boundaries",
     ],
     "must_observe": ["thread_schedules", "async_schedules", "dispatch_switches", "tokens_checked"],
-    "shard_timeout": {"quick": 400, "thorough": 3400},
+    "shard_timeout": {"quick": 900, "thorough": 3400},
     "max_samples": 4,
 }
 
